@@ -3,6 +3,7 @@
 package drv
 
 import (
+	"bytes"
 	"encoding/json"
 	"fmt"
 	"io"
@@ -124,10 +125,32 @@ func NewRec(path string) (*Rec, error) {
 	return &Rec{w: f, f: f}, nil
 }
 
+// noNull replaces JSON nulls by empty arrays (the TLA+ Json module cannot read null).
+func noNull(v interface{}) interface{} {
+	switch x := v.(type) {
+	case nil:
+		return []interface{}{}
+	case map[string]interface{}:
+		for k, e := range x {
+			x[k] = noNull(e)
+		}
+	case []interface{}:
+		for i, e := range x {
+			x[i] = noNull(e)
+		}
+	}
+	return v
+}
+
 func (r *Rec) Emit(ev map[string]interface{}) {
 	b, err := json.Marshal(ev)
 	if err != nil {
 		panic(err)
+	}
+	if bytes.Contains(b, []byte("null")) {
+		var g interface{}
+		json.Unmarshal(b, &g)
+		b, _ = json.Marshal(noNull(g))
 	}
 	r.mu.Lock()
 	r.w.Write(b)
